@@ -792,7 +792,10 @@ _ALIAS_N = [0]
 
 
 def _alias_tr(ctr, mode):
-    """A differently spelled but equivalent transition (levels compare by lower-cased string form)."""
+    """A differently spelled but equivalent transition (levels compare by lower-cased string form).
+    mode = ("exact", (upper, lower)) re-uses the spelling the key was written with."""
+    if isinstance(mode, tuple):
+        return mode[1], False
     u, l = ctr
     if mode % 3 == 0:
         if u.isdigit() and l.isdigit() and str(int(u)) == u and str(int(l)) == l:
@@ -803,7 +806,7 @@ def _alias_tr(ctr, mode):
     return (u, l), False
 
 
-def _read(fam, ckey, repo_path, alias=0):
+def _read(fam, ckey, repo_path, alias=0, spelled=None):
     """Read one model key through the matching get_*.  -> ('ok', value) | ('missing', None) | ('error', exc).
     For beam_cx the value is {metastable: rate} of the whole transition."""
     R = _S["repo"]
@@ -818,21 +821,24 @@ def _read(fam, ckey, repo_path, alias=0):
         return _S["sp"][names[alias % len(names)]]
 
     aliased = False
+    tmode = alias
+    if spelled is not None:
+        tmode = ("exact", spelled)
     try:
         if kind == "sq":
             got = fn(sp(ckey[0]), ckey[1], repository_path=repo_path)
         elif kind == "tcx":
             got = fn(sp(ckey[0]), ckey[1], sp(ckey[2]), ckey[3], repository_path=repo_path)
         elif kind in ("pec", "wl"):
-            tr, aliased = _alias_tr(ckey[2], alias)
+            tr, aliased = _alias_tr(ckey[2], tmode)
             got = fn(sp(ckey[0]), ckey[1], tr, repository_path=repo_path)
             if kind == "wl":
                 got = {"wavelength": got}
         elif kind == "pectcx":
-            tr, aliased = _alias_tr(ckey[4], alias)
+            tr, aliased = _alias_tr(ckey[4], tmode)
             got = fn(sp(ckey[0]), ckey[1], sp(ckey[2]), ckey[3], tr, repository_path=repo_path)
         elif kind == "bcx":
-            tr, aliased = _alias_tr(ckey[3], alias)
+            tr, aliased = _alias_tr(ckey[3], tmode)
             lst = fn(sp(ckey[0]), sp(ckey[1]), ckey[2], tr, repository_path=repo_path)
             got = {}
             for ms, rate in lst:
@@ -842,7 +848,7 @@ def _read(fam, ckey, repo_path, alias=0):
         elif kind == "pop":
             got = fn(sp(ckey[0]), ckey[1], sp(ckey[2]), ckey[3], repository_path=repo_path)
         else:
-            tr, aliased = _alias_tr(ckey[3], alias)
+            tr, aliased = _alias_tr(ckey[3], tmode)
             got = fn(sp(ckey[0]), sp(ckey[1]), ckey[2], tr, repository_path=repo_path)
     except RuntimeError as e:
         if type(e) is RuntimeError:
@@ -866,14 +872,20 @@ class _History:
         self.n_readback = 0
         self.n_others = 0
         self.outside_paths = []
+        self.spell = {}          # (fam, ckey) -> transition spelling of the last write
 
     # --- model access (beam_cx grouped by transition for reading) -------------------------------------------------
     def lookup(self, fam, ckey):
         return self.model[fam].get(ckey)
 
-    def read_key(self, fam, ckey, alias=0):
-        """-> (status, value-or-exc, aliased); for beam_cx extracts the metastable of ckey ('missing' if absent)."""
-        st, got, aliased = _read(fam, ckey, self.repo, alias)
+    def read_key(self, fam, ckey, alias=None):
+        """-> (status, value-or-exc, aliased); for beam_cx extracts the metastable of ckey ('missing' if absent).
+        alias=None: the spelling the key was last written with (lower-case string form if unknown)."""
+        spelled = None
+        if alias is None:
+            alias = 2
+            spelled = self.spell.get((fam, ckey))
+        st, got, aliased = _read(fam, ckey, self.repo, alias, spelled)
         if FAM[fam][0] == "bcx" and st == "ok":
             if ckey[4] in got:
                 return "ok", got[ckey[4]], aliased
@@ -905,6 +917,8 @@ class _History:
                 diff = _value_equal(kind, got, val)
                 if diff is None:
                     self.model[fam][ckey] = val
+                    if kind in HAS_TRANSITION and not self.alias_probe(fam, ckey, val):
+                        return False
                     continue
                 bad = "read-back-differs"
             elif st == "missing":
@@ -951,6 +965,26 @@ class _History:
             return False
         return True
 
+    def alias_probe(self, fam, ckey, val):
+        """A key just read back under the spelling it was written with must also be found under an equivalent spelling."""
+        self.rot += 1
+        st, got, aliased = self.read_key(fam, ckey, alias=self.rot)
+        if not aliased:
+            return True
+        self.ctx.mon("alias_read")
+        if st == "ok" and _value_equal(FAM[fam][0], got, val) is None:
+            return True
+        self.alias_viol(fam, ckey, st, got)
+        return False
+
+    def alias_viol(self, fam, ckey, st, got):
+        self.ctx.viol("%s:alias-spelling-not-equivalent:%s" % (FAM[fam][3], fam),
+                      "a stored %s key is returned under the spelling it was written with but not under an equivalent spelling of "
+                      "its transition (int vs str level, upper vs lower case): %s" % (
+                          fam, "RuntimeError" if st == "missing" else "other content" if st == "ok" else type(got).__name__),
+                      stored_key=repr(ckey), written_as=repr(self.spell.get((fam, ckey))))
+        self.dead = True
+
     def check_others(self, fn, exclude, tag="changes-other-key", mon="others_untouched"):
         ctx = self.ctx
         for fam in FAMILIES:
@@ -977,14 +1011,10 @@ class _History:
                     what = "raises %s: %s" % (type(got).__name__, str(got)[:200])
                     key = "%s:%s-unreadable:%s:%s" % (fn, tag.replace("changes-", ""), fam, type(got).__name__)
                 if aliased:
-                    # distinguish an aliasing failure from damage: re-read with the canonical spelling
-                    st2, got2, _ = self.read_key(fam, ckey, alias=2)
+                    # distinguish an aliasing failure from damage: re-read with the spelling of the last write
+                    st2, got2, _ = self.read_key(fam, ckey)
                     if st2 == "ok" and _value_equal(kind, got2, val) is None:
-                        ctx.viol("%s:alias-spelling-not-equivalent:%s" % (FAM[fam][3], fam),
-                                 "a stored %s key is found under its lower-case / string spelling but not under an equivalent "
-                                 "spelling (int vs str level, upper case, species with the same symbol)" % fam,
-                                 stored_key=repr(ckey), status=st)
-                        self.dead = True
+                        self.alias_viol(fam, ckey, st, got)
                         return False
                 ctx.viol(key, "after %s a previously stored %s key %s" % (fn, fam, what), family=fam, stored_key=repr(ckey))
                 self.dead = True
@@ -1097,7 +1127,7 @@ def _snapshot(root):
 # install front-ends
 # ----------------------------------------------------------------------------------------------------------------
 def _flatten(ufn, rates):
-    """Flatten the dictionary install_* passed to repository.<ufn> into [(fam, ckey, kind, ratedict)]."""
+    """Flatten the dictionary install_* passed to repository.<ufn> into [(fam, ckey, value)]."""
     out = []
     sym = lambda o: o.symbol
 
@@ -1118,16 +1148,16 @@ def _flatten(ufn, rates):
             out.append(("thermal_cx", (sym(d), int(dq), sym(rcv), int(rq)), r))
     elif ufn == "update_pec_rates":
         for (c, s, q, tr), r in walk(rates, 4, []):
-            out.append(("pec_" + c.lower(), (sym(s), int(q), canon_tr(tr)), r))
+            out.append(("pec_" + c.lower(), (sym(s), int(q), canon_tr(tr)), r, tr))
     elif ufn == "update_pec_thermal_cx_rates":
         for (d, dq, rcv, rq, tr), r in walk(rates, 5, []):
-            out.append(("pec_thermal_cx", (sym(d), int(dq), sym(rcv), int(rq), canon_tr(tr)), r))
+            out.append(("pec_thermal_cx", (sym(d), int(dq), sym(rcv), int(rq), canon_tr(tr)), r, tr))
     elif ufn == "update_wavelengths":
         for (s, q, tr), r in walk(rates, 3, []):
-            out.append(("wavelength", (sym(s), int(q), canon_tr(tr)), {"wavelength": r}))
+            out.append(("wavelength", (sym(s), int(q), canon_tr(tr)), {"wavelength": r}, tr))
     elif ufn == "update_beam_cx_rates":
         for (d, rcv, q, tr, ms), r in walk(rates, 5, []):
-            out.append(("beam_cx", (sym(d), sym(rcv), int(q), canon_tr(tr), int(ms)), r))
+            out.append(("beam_cx", (sym(d), sym(rcv), int(q), canon_tr(tr), int(ms)), r, tr))
     elif ufn == "update_beam_stopping_rates":
         for (b, t, q), r in walk(rates, 3, []):
             out.append(("beam_stopping", (sym(b), sym(t), int(q)), r))
@@ -1136,11 +1166,14 @@ def _flatten(ufn, rates):
             out.append(("beam_population", (sym(b), int(ms), sym(t), int(q)), r))
     elif ufn == "update_beam_emission_rates":
         for (b, t, q, tr), r in walk(rates, 4, []):
-            out.append(("beam_emission", (sym(b), sym(t), int(q), canon_tr(tr)), r))
+            out.append(("beam_emission", (sym(b), sym(t), int(q), canon_tr(tr)), r, tr))
     res = []
-    for fam, ckey, r in out:
+    for entry in out:
+        fam, ckey, r = entry[:3]
         kind = FAM[fam][0]
         val = {}
+        if len(entry) > 3:
+            val["_tr"] = (entry[3][0], entry[3][1])      # spelling used by install_* (not a data field)
         for f, _ in FIELDS[kind]:
             src = "rates" if (kind in ("sq", "tcx") and f == "rate" and "rates" in r) else f
             val[f] = np.array(r[src], dtype=np.float64)
@@ -1307,6 +1340,8 @@ def _run_history(case, ctx, H, repo_path, adas_dir, home):
                     return
                 continue
             val = _expected(FAM[fam][0], op["data"])
+            if "tr" in op["key"]:
+                H.spell[(fam, ck)] = _tr(op["key"]["tr"])
             if not H.check_written(fn, [(fam, ck, val)], outside):
                 return
             if not H.check_others(fn, {(fam, ck)}):
@@ -1329,6 +1364,9 @@ def _run_history(case, ctx, H, repo_path, adas_dir, home):
                 if not H.check_others(fn, {(w[0], w[1]) for w in written}):
                     return
                 continue
+            for it in op["items"]:
+                if "tr" in it["key"]:
+                    H.spell[(it["fam"], canon_key(it["fam"], it["key"]))] = _tr(it["key"]["tr"])
             if not H.check_written(fn, written, outside):
                 return
             if not H.check_others(fn, {(w[0], w[1]) for w in written}):
@@ -1397,6 +1435,8 @@ def _run_history(case, ctx, H, repo_path, adas_dir, home):
                     new = None
                 if st == "ok" and new is not None and _value_equal(kind, got, new) is None:
                     H.model[fam][ck] = new
+                    if "tr" in it["key"]:
+                        H.spell[(fam, ck)] = _tr(it["key"]["tr"])
                 elif st == "ok" and old is not None and _value_equal(kind, got, old) is None:
                     pass
                 elif st == "missing" and old is None:
@@ -1498,6 +1538,9 @@ def _do_install(op, ctx, H, repo_path, adas_dir, home, n_file):
     if H.dead:
         return False
     n0 = H.n_readback
+    for fam, ck, val in written:
+        if "_tr" in val:
+            H.spell[(fam, ck)] = val["_tr"]
     if not H.check_written(fn, written, outside and not wrong_path):
         return False
     ctx.mon("install_readback", H.n_readback - n0)
